@@ -196,6 +196,147 @@ pub fn inproc_cell(spec: &Value) -> Value {
     c.to_json()
 }
 
+// ---------------------------------------------------------------- bundled client behind a lossy relay
+
+/// A UDP relay between the bundled client and the real server that drops the n-th datagram it sees (either direction).
+fn relay(server: std::net::SocketAddr, drop_nth: usize, stop: std::sync::Arc<std::sync::atomic::AtomicBool>) -> (u16, std::thread::JoinHandle<Vec<String>>) {
+    use std::net::UdpSocket;
+    let front = UdpSocket::bind("127.0.0.1:0").unwrap();
+    let back = UdpSocket::bind("127.0.0.1:0").unwrap();
+    big_rcvbuf(&front);
+    big_rcvbuf(&back);
+    let port = front.local_addr().unwrap().port();
+    front.set_nonblocking(true).unwrap();
+    back.set_nonblocking(true).unwrap();
+    let h = std::thread::spawn(move || {
+        let mut log = vec![];
+        let mut client: Option<std::net::SocketAddr> = None;
+        let mut srv_peer = server; // listening port first, then the transfer's endpoint
+        let mut n = 0usize;
+        let mut buf = vec![0u8; 70000];
+        while !stop.load(std::sync::atomic::Ordering::SeqCst) {
+            let mut idle = true;
+            if let Ok((k, from)) = front.recv_from(&mut buf) {
+                idle = false;
+                client = Some(from);
+                n += 1;
+                if n == drop_nth {
+                    log.push(format!("dropped #{n} client->server {}", crate::refcodec::describe(&buf[..k])));
+                } else {
+                    let _ = back.send_to(&buf[..k], srv_peer);
+                }
+            }
+            if let Ok((k, from)) = back.recv_from(&mut buf) {
+                idle = false;
+                srv_peer = from;
+                n += 1;
+                if n == drop_nth {
+                    log.push(format!("dropped #{n} server->client {}", crate::refcodec::describe(&buf[..k])));
+                } else if let Some(c) = client {
+                    let _ = front.send_to(&buf[..k], c);
+                }
+            }
+            if idle {
+                std::thread::sleep(Duration::from_micros(100));
+            }
+        }
+        log
+    });
+    (port, h)
+}
+
+pub fn relay_cell(spec: &Value) -> Value {
+    let _ = std::env::set_current_dir("/");
+    let cfg = SrvCfg::from_json(&spec["srv"]);
+    let prop = spec["property"].as_str().unwrap_or("C14").to_string();
+    let mut c = Counters::default();
+    let srv = match if cfg.single { server_fresh(&cfg) } else { server_for(&cfg) } {
+        Ok(s) => s,
+        Err(e) => return json!({"machinery_error": format!("server start: {e}")}),
+    };
+    let upload = spec["upload"].as_bool().unwrap();
+    let drop_nth = spec["drop"].as_u64().unwrap() as usize;
+    let len = 1300usize;
+    let data = body(len);
+    let cdir = format!("{}/relay_cl", srv.root);
+    let _ = std::fs::create_dir_all(&cdir);
+    let fname = format!("relay_{}_{}", std::process::id(), drop_nth);
+    let stop = std::sync::Arc::new(std::sync::atomic::AtomicBool::new(false));
+    let (port, h) = relay(srv.addr, drop_nth, stop.clone());
+    let mut args: Vec<String> = vec!["tftpc".into()];
+    let (src, dst);
+    if upload {
+        std::fs::write(format!("{cdir}/{fname}"), &data).unwrap();
+        args.push(format!("{cdir}/{fname}"));
+        args.push("-u".into());
+        src = format!("{cdir}/{fname}");
+        dst = format!("{}/{fname}", srv.recv_dir);
+    } else {
+        std::fs::write(format!("{}/{fname}", srv.send_dir), &data).unwrap();
+        args.push(fname.clone());
+        args.push("-d".into());
+        args.extend(["-rd".into(), cdir.clone()]);
+        src = format!("{}/{fname}", srv.send_dir);
+        dst = format!("{cdir}/{fname}");
+    }
+    args.extend(["-i".into(), "127.0.0.1".into(), "-p".into(), port.to_string(), "-t".into(), "1".into()]);
+    let t0 = Instant::now();
+    let r = run_client(args, Duration::from_secs(25));
+    let took = t0.elapsed().as_secs_f64();
+    stop.store(true, std::sync::atomic::Ordering::SeqCst);
+    let log = h.join().unwrap_or_default();
+    // the relay is gone: end whatever is left on the server side, then judge
+    let t1 = Instant::now();
+    while workers_alive() && t1.elapsed() < Duration::from_secs(8) {
+        std::thread::sleep(Duration::from_millis(20));
+    }
+    let desc = format!("{} of {len} bytes with -t 1 through a relay that loses datagram #{drop_nth} ({:?}), took {:.1} s", if upload { "upload" } else { "download" }, log, took);
+    let mut viol: Vec<(String, String)> = vec![];
+    match r {
+        Err(hung) => viol.push(("client-hangs".into(), format!("{desc}: {hung}"))),
+        Ok(res) => {
+            let b = std::fs::read(&dst).ok();
+            if b.as_deref() != Some(&data[..]) {
+                viol.push(("not-identical-after-loss".into(), format!("{desc}: destination has {:?} bytes, source {len} (client returned {:?})", b.map(|x| x.len()), res)));
+            }
+        }
+    }
+    let _ = std::fs::remove_file(&src);
+    let _ = std::fs::remove_file(&dst);
+    c.executions = 1;
+    c.states = 1;
+    c.transitions = 8;
+    c.nontrivial = 1;
+    c.trace_hashes.insert(fnv64(format!("{upload}{drop_nth}{}", cfg.single).as_bytes()));
+    c.samples.push(json!({"srv": cfg.brief(), "relay": desc}));
+    for (clause, what) in viol {
+        c.violations.push(Violation { property: prop.clone(), clause, facts: facts(&[("mode", json!("relay"))]), what: format!("[{}] {}", cfg.brief(), what), replay: json!({"engine": "c14_relay", "spec": spec}), weight: 40 });
+    }
+    if !quiesce() {
+        c.machinery_errors.push("server not quiescent after a relay case".into());
+    }
+    c.to_json()
+}
+
+pub fn relay_cells(property: &str) -> Vec<Value> {
+    let mut v = vec![];
+    for single in [false, true] {
+        let mut s = SrvCfg::basic();
+        s.single = single;
+        s.overwrite = true;
+        for upload in [false, true] {
+            // #1 is the request, #2 the OACK (the client has no timeout on its first receive), and for a download #3 is the
+            // client's ACK 0 — still the handshake, whose loss the properties do not cover (the sender gives up on it at
+            // once). The data phase starts at #3 for an upload and at #4 for a download.
+            let first = if upload { 3usize } else { 4 };
+            for drop in first..first + 3 {
+                v.push(json!({"srv": s.to_json(), "upload": upload, "drop": drop, "property": property}));
+            }
+        }
+    }
+    v
+}
+
 // ---------------------------------------------------------------- real binaries
 
 fn run_tftpc(cwd: &str, args: &[String]) -> Result<(Option<i32>, String), String> {
@@ -242,6 +383,12 @@ pub fn binary_cell(spec: &Value) -> Value {
     if refusal == Some("readonly") {
         extra.push("-r");
     }
+    let rd_first = spec["rd_first"].as_bool().unwrap_or(false);
+    if rd_first {
+        // distinct receive directory, written BEFORE -d on the command line
+        extra.push("@first:-rd");
+        extra.push("@first:{dir}/up");
+    }
     let dupn = spec["dup"].as_u64().unwrap_or(0);
     let dups = dupn.to_string();
     if dupn > 0 {
@@ -285,7 +432,7 @@ pub fn binary_cell(spec: &Value) -> Value {
             std::fs::write(format!("{cdir}/{real_rel}"), &data).unwrap();
             args = vec![rel.to_string(), "-u".into()];
             src = format!("{cdir}/{real_rel}");
-            dst = format!("{sdir}/up.bin"); // stored under its basename in the server's receive directory
+            dst = if rd_first { format!("{}/up/up.bin", p.dir) } else { format!("{sdir}/up.bin") }; // stored under its basename in the server's receive directory
         } else {
             let rel = match style {
                 "nested" => "sub/dl.bin",
@@ -510,7 +657,7 @@ pub fn run_pair(pc: &PairCfg, prefix: &[u16]) -> PairResult {
     let evs_r = rd.take_events();
     let stored = std::fs::read(&dst).ok();
     // judge each worker's own trace with the Mode A monitors, then the composition
-    let xs = XCfg { role: Role::Sender, blk: pc.blk, ws: pc.ws, len: pc.len, handshake: false, timeout_s: 5, repeat: 1, clean: true, alpha: 3, silence_after: None, error_at: None, ack_every_copy: false, snapshot_tail: false, noise: None };
+    let xs = XCfg { role: Role::Sender, blk: pc.blk, ws: pc.ws, len: pc.len, handshake: false, timeout_s: 5, repeat: 1, clean: true, alpha: 3, silence_after: None, error_at: None, ack_every_copy: false, snapshot_tail: false, noise: None, noise_resume: false, send_fail_at: None };
     let mut xr = xs.clone();
     xr.role = Role::Receiver;
     let ts = Trace { cfg: xs, events: evs_s, log: vec![], panicked: ps, stuck: false, horizon_hit: false, replay_error: None, now_calls: 1, final_file: None, content: std::sync::Arc::new(data.clone()) };
@@ -582,6 +729,10 @@ pub fn pair_cell(spec: &Value) -> Value {
 
 pub fn check(tier: Tier) -> Outcome {
     let mut out = Outcome::new("C14", "exploration");
+    // (d) the bundled client behind a relay that loses one datagram of the data phase (wall clock: runs alongside)
+    let rc = relay_cells("C14");
+    let nrc = rc.len();
+    let hrc = std::thread::spawn(move || run_cells("c14_relay", rc, &crate::pool_opts(Tier::Quick)));
     // (a) in-process Client/Server pair over the boundary grid
     let mut cells = vec![];
     for single in [false, true] {
@@ -638,6 +789,11 @@ pub fn check(tier: Tier) -> Outcome {
                 cases.push(json!({"len": 65536 * 8 + 3, "blk": 8, "ws": 16, "upload": true, "path": "plain"}));
             }
             cells.push(json!({"ipv6": ipv6, "single": single, "cases": cases}));
+            if !ipv6 {
+                // more than 65535 blocks through the real binaries; a receive directory given before -d
+                cells.push(json!({"ipv6": false, "single": single, "cases": [{"len": 65536 * 8 + 3, "blk": 8, "ws": 16, "upload": false, "path": "plain"}, {"len": 65536 * 8 + 3, "blk": 8, "ws": 16, "upload": true, "path": "plain"}]}));
+                cells.push(json!({"ipv6": false, "single": single, "rd_first": true, "cases": [{"len": 1500, "blk": 512, "ws": 1, "upload": true, "path": "plain"}, {"len": 1500, "blk": 512, "ws": 1, "upload": false, "path": "plain"}]}));
+            }
             for kind in ["missing", "exists", "readonly"] {
                 cells.push(json!({"ipv6": ipv6, "single": single, "cases": [], "refusal": kind}));
             }
@@ -657,7 +813,10 @@ pub fn check(tier: Tier) -> Outcome {
     let n = cells.len();
     let res = run_cells("c14_pair", cells, &crate::pool_opts(tier));
     out.absorb(res, n);
-    out.rule = "(a) the bundled Client (ClientConfig::new + Client::run, in-process) against the real Server on loopback over the boundary grid len in {0,1,blk-1,blk,blk+1,w*blk,w*blk+1,70000,(65536*8+3)} x blksize {8,512,(1428),65464} x windowsize {1,2,(7),65535} x timeout {(1),5,(255)} x {single,multi port} x {download,upload}, plus refusals (missing file, existing file without overwrite, read-only server): files byte-identical on both sides, stored under the basename, no client-side file and an Err on refusal. (b) the real tftpc and tftpd binaries on a covering sub-grid x {IPv4, ::1} x {plain, nested, Windows-style path} x refusal kinds. (c) two real Workers (one sending, one receiving) joined by the simulated network: every placement of up to 1 (thorough 2) faults (drop, duplicate, delay-past-timeout) and both timer orders; both must end with identical files. The grid is a boundary-value selection of a space that is not small: level = exploration. non-trivial = every run (each transfers a file or exercises a refusal).".into();
+    if let Ok(res) = hrc.join() {
+        out.absorb(res, nrc);
+    }
+    out.rule = "(a) the bundled Client (ClientConfig::new + Client::run, in-process) against the real Server on loopback over the boundary grid len in {0,1,blk-1,blk,blk+1,w*blk,w*blk+1,70000,(65536*8+3)} x blksize {8,512,(1428),65464} x windowsize {1,2,(7),65535} x timeout {(1),5,(255)} x {single,multi port} x {download,upload}, plus refusals (missing file, existing file without overwrite, read-only server): files byte-identical on both sides, stored under the basename, no client-side file and an Err on refusal. (b) the real tftpc and tftpd binaries on a covering sub-grid x {IPv4, ::1} x {plain, nested, Windows-style path} x refusal kinds. (c) two real Workers (one sending, one receiving) joined by the simulated network: every placement of up to 1 (thorough 2) faults (drop, duplicate, delay-past-timeout) and both timer orders; both must end with identical files. (d) the bundled client with -t 1 behind a UDP relay that loses one of the first three data-phase datagrams, both directions, both port modes: the transfer still completes byte-identically. The grid is a boundary-value selection of a space that is not small: level = exploration. non-trivial = every run (each transfers a file or exercises a refusal).".into();
     out.assumptions = vec!["tftpc is run under a 20 s kill deadline (it has no timeout on its first receive)".into(), "uploads by absolute path only work when the client's working directory is / (the client strips leading separators); the in-process runs set it so".into()];
     out
 }
